@@ -69,4 +69,79 @@ example : obtainQuantity poscDb (.rows .list [[.str (Sym.ofString "m") none, .nu
 example : elemsEq [.row [.num 1 true, .num 2 false]] [.row [.num 1 false, .num 2 true]] = true := by decide +kernel
 example : elemsEq [.row [.num 1 true]] [.atom (.num 1 true)] = false := by decide +kernel
 
+-- quantities with an unknown-unit caption: ObtainQuantity keeps it, the quantity-first forms keep it, `==` sees it
+example : obtainQuantityC poscDb (.atom (.str (Sym.ofString "m") none)) (.str (Sym.ofString "length") none)
+      (.str (Sym.ofString "Feeeet") none)
+    = .ok ⟨Sym.ofString "length", Sym.ofString "m", Sym.ofString "Feeeet", none⟩ := by decide +kernel
+example : unknownQuantity poscDb (.str (Sym.ofString "Feeeet") none)
+    = .ok ⟨Sym.ofString "Unknown", Sym.ofString "<unknown>", Sym.ofString "Feeeet", none⟩ := by decide +kernel
+example : unknownQuantity poscDb .none = .ok (Qty.simple (Sym.ofString "Unknown") (Sym.ofString "<unknown>")) := by
+  decide +kernel
+example : construct poscDb .scalar (.qty ⟨Sym.ofString "length", Sym.ofString "m", Sym.ofString "Feeeet", none⟩) (.num (5/2)) .none
+    = createWithQuantity poscDb .scalar ⟨Sym.ofString "length", Sym.ofString "m", Sym.ofString "Feeeet", none⟩ (.num (5/2)) false none := by
+  decide +kernel
+example : (construct poscDb .scalar (.qty ⟨Sym.ofString "length", Sym.ofString "m", Sym.ofString "Feeeet", none⟩) (.num (5/2)) .none).toOption.map (·.q.caption)
+    = some (Sym.ofString "Feeeet") := by decide +kernel
+example : Obj.eq ⟨⟨1, 2, 7, none⟩, .scalar 1⟩ ⟨⟨1, 2, 0, none⟩, .scalar 1⟩ = .ok false := by decide
+example : Obj.eq ⟨⟨1, 2, 7, none⟩, .arr (.seq .list [.num 1 true])⟩ ⟨⟨1, 2, 7, none⟩, .arr (.seq .tuple [.num 1 false])⟩ = .ok true := by
+  decide
+-- a derived quantity (two entries), the one-entry dict that is a simple quantity, the empty quantity
+example : obtainDict poscDb [(Sym.ofString "length", Sym.ofString "m", 1), (Sym.ofString "time", Sym.ofString "s", -2)] .none
+    = .ok ⟨0, 0, 0, some [(Sym.ofString "length", Sym.ofString "m", 1), (Sym.ofString "time", Sym.ofString "s", -2)]⟩ := by
+  decide +kernel
+example : obtainDict poscDb [(Sym.ofString "length", Sym.ofString "m", 1)] (.str 7 none)
+    = .ok ⟨Sym.ofString "length", Sym.ofString "m", 7, none⟩ := by decide +kernel
+example : obtainDict poscDb [] .none = .ok Qty.empty := by decide +kernel
+example : createEmpty poscDb .scalar (.num 3) = createWithQuantity poscDb .scalar Qty.empty (.num 3) true none := by
+  decide +kernel
+-- a bad caption is rejected before anything else
+example : obtainQuantityC poscDb (.atom (.str (Sym.ofString "m") none)) (.str (Sym.ofString "length") none) (.num 3 true)
+    = .error .assertion := by decide +kernel
+
+-- a history on a private database: a unit asked about before its category exists, then the category
+-- is registered: the second answer comes from the registry as it is then, and the unit-only form builds
+def exBase : HOp := .reg (.addUnitBase (.str 11) 1 (.str 21))
+def exUnit : HOp := .reg (.addUnit (.str 11) 2 (.str 22) (.mob ⟨0, 100, 1, 0⟩) (.mob ⟨0, 1, 100, 0⟩) 0)
+def exCat : HOp := .reg (.addCategory ⟨.str 11, some 11, none, false, none, none, none, none, false, false, 0, none⟩)
+def exCall : Call := ⟨.ctor, .scalar, .val (.num 3), .val (.str 22), .none, false, none⟩
+
+example : houts [] Reg.Registry.empty [exBase, exUnit, .defcat 22, exCat, .defcat 22]
+    = [.reg (.ok .unit), .reg (.ok .unit), .defcat (.ok none),
+       (hstep [] (hrun [] Reg.Registry.empty [exBase, exUnit]) exCat).2, .defcat (.ok (some 11))] := by
+  decide +kernel
+example : (houts [] Reg.Registry.empty [exBase, exUnit, .calls [exCall], exCat, .calls [exCall]]).getLast?
+    = some (.calls [some (.ok ⟨Qty.simple 11 22, .scalar 3⟩)]) := by decide +kernel
+example : (houts [] Reg.Registry.empty [exBase, exUnit, .calls [exCall]]).getLast?
+    = some (.calls [some (.error .units)]) := by decide +kernel
+example : regsOf [exBase, .defcat 22, exUnit, .calls [exCall], exCat]
+    = [.addUnitBase (.str 11) 1 (.str 21), .addUnit (.str 11) 2 (.str 22) (.mob ⟨0, 100, 1, 0⟩) (.mob ⟨0, 1, 100, 0⟩) 0,
+       .addCategory ⟨.str 11, some 11, none, false, none, none, none, none, false, false, 0, none⟩] := by decide +kernel
+
+-- the list form of a composition: zipped into the dict form; one pair with exponent 1 is the simple quantity; a
+-- repeated category keeps its place and takes the last pair; no category for the simple case is an IndexError
+example : obtainPairs poscDb [(Sym.ofString "m", 1), (Sym.ofString "s", -2)] [Sym.ofString "length", Sym.ofString "time"] .none
+    = obtainDict poscDb [(Sym.ofString "length", Sym.ofString "m", 1), (Sym.ofString "time", Sym.ofString "s", -2)] .none := by
+  decide +kernel
+example : obtainPairs poscDb [(Sym.ofString "m", 1)] [Sym.ofString "length"] (.str 7 none)
+    = .ok ⟨Sym.ofString "length", Sym.ofString "m", 7, none⟩ := by decide +kernel
+example : obtainPairs poscDb [(Sym.ofString "m", 1)] [] .none = .error .index := by decide +kernel
+example : odictZip [1, 2, 1] [(5, 1), (6, 2), (7, 3)] = [(1, 7, 3), (2, 6, 2)] := by decide
+-- the value twice
+example : createWithQuantityBoth .array (Qty.simple 1 2) (.seq .list [.num 1 true]) (.num 2 false) none = .error .value := by decide
+example : createWithQuantityBoth .array (Qty.simple 1 2) (.seq .list [.num 1 true]) .none none
+    = .ok ⟨Qty.simple 1 2, .arr (.seq .list [.num 1 true])⟩ := by decide
+
+-- the legacy constructor called directly
+example : quantityInit poscDb (.str (Sym.ofString "length") none) (.str (Sym.ofString "m") none) (.str 7 none)
+    = .ok ⟨Sym.ofString "length", Sym.ofString "m", 7, none⟩ := by decide +kernel
+example : quantityInit poscDb (.str (Sym.ofString "length") none) .none .none
+    = .ok (Qty.simple (Sym.ofString "length") (Sym.ofString "m")) := by decide +kernel
+example : quantityInit poscDb (.str (Sym.ofString "length") none) (.num 3 true) .none = .error .type := by decide +kernel
+
+-- a unit asked about before it exists, then registered: found from then on
+def exUnit3 : HOp := .reg (.addUnit (.str 11) 3 (.str 23) (.mob ⟨0, 1, 1000, 0⟩) (.mob ⟨0, 1000, 1, 0⟩) 0)
+example : (houts [] Reg.Registry.empty [exBase, exCat, .defcat 23, .calls [⟨.ctor, .scalar, .val (.num 3), .val (.str 23), .none, false, none⟩],
+      exUnit3, .defcat 23]).map (fun o => match o with | .defcat d => some d | _ => none)
+    = [none, none, some (.ok none), none, none, some (.ok (some 11))] := by decide +kernel
+
 end Barril.Ctor
